@@ -141,7 +141,9 @@ SIZE_ENUM = ["FIT", "AUTO", "ORIGINAL", "FIT_TO_WIDTH"]
 
 @st.composite
 def size_setting(draw):
-    kind = draw(st.sampled_from(["fixed", "fixed", "fixed", "dyn", "dyn", "width", "enumfixed"]))
+    kind = draw(st.sampled_from(["fixed", "fixed", "fixed", "dyn", "dyn", "width", "enumfixed", "match", "match"]))
+    if kind == "match":  # render size == source size in pixels where the cell geometry allows: no resize step
+        return ["match"]
     if kind == "fixed":
         return ["fixed", draw(st.integers(1, 8)), draw(st.integers(1, 4))]
     if kind == "width":
@@ -257,8 +259,9 @@ def cases(draw):
         # load, seek 1), which every backward iterator seek / PIL source positioned mid-way runs into.
         img = draw(gen.anim_image(max_frames=5, max_w=8, max_h=8, fmts=("GIF", "WEBP")))
         n = img["n"]
-        kind = draw(st.sampled_from(["file", "file", "file", "pil", "pil", "url", "url", "url",
-                                     "url404", "urlbad", "urlarg"]))
+        if draw(st.integers(0, 2)) == 0:
+            img["alpha"] = True
+        kind = draw(st.sampled_from(["file"] * 5 + ["pil"] * 3 + ["url"] * 5 + ["url404", "urlbad", "urlarg"]))
     else:
         img = draw(gen.still_image(max_w=8, max_h=8, modes=["L", "RGB", "RGB", "RGBA", "P", "LA"]))
         n = 1
@@ -292,6 +295,10 @@ def cases(draw):
 
 
 # ====================================================================================== fault injector
+
+class _Runaway(Exception):
+    pass
+
 
 class Injector:
     """Wraps one PIL entry point.  Counts calls while armed; raises at call index `fire_at`."""
@@ -476,12 +483,18 @@ class World:
                     a.load(), w.load()
                 except Exception as x:
                     return f"'+A' frame payload is not a decodable image ({type(x).__name__}: {x})"
-                if a.mode == w.mode and (
-                        a.size == w.size and a.tobytes() == w.tobytes()
-                        or w.resize(a.size, PILImage.Resampling.BOX).tobytes() == a.tobytes()):
-                    self.flags.add("anim_fallback_scaled")
-                    return None
-                return f"'+A' frame payload ({a.mode} {a.size}) is not the (scaled) '+W' payload ({w.mode} {w.size})"
+                if a.mode == w.mode:
+                    # (resampling before vs after blending with a background differs by rounding only)
+                    from PIL import ImageChops
+
+                    d = ImageChops.difference(w.resize(a.size, PILImage.Resampling.BOX), a).getextrema()
+                    worst = max(hi for _, hi in ([d] if isinstance(d[0], int) else d))
+                    if worst <= 3:
+                        self.flags.add("anim_fallback_scaled")
+                        return None
+                    return (f"'+A' frame payload ({a.mode} {a.size}) differs from the rescaled '+W' payload "
+                            f"({w.mode} {w.size}) by up to {worst} levels")
+                return f"'+A' frame payload is {a.mode} {a.size}, '+W' payload is {w.mode} {w.size}"
         return f"{_short(obs)} != format(twin@{k}, {spec!r}) == {_short(exp)}"
 
     # ------------------------------------------------------------------ invariants
@@ -546,14 +559,40 @@ def _short(s):
 # ====================================================================================== construction
 
 def _source_file(src):
-    if src["image"].get("anim"):
-        return gen.anim_file(src["image"])
-    return gen.still_file(src["image"], "PNG")
+    spec = src["image"]
+    if not spec.get("anim"):
+        return gen.still_file(spec, "PNG")
+    if not spec.get("alpha"):
+        return gen.anim_file(spec)
+    # animated source with an alpha channel (written once per process): the frames of gen.anim_frames with
+    # one fully transparent / semi-transparent pixel each
+    import hashlib
+    import json
+
+    key = hashlib.sha1(json.dumps(spec, sort_keys=True).encode()).hexdigest()[:16]
+    path = os.path.join(env.tmpdir(), f"animA-{key}.{spec['fmt'].lower()}")
+    if not os.path.exists(path):
+        frames = []
+        for i, f in enumerate(gen.anim_frames(spec)):
+            f = f.convert("RGBA")
+            xy = (spec["w"] - 1, spec["h"] - 1)
+            f.putpixel(xy, f.getpixel(xy)[:3] + ((0, 120, 30)[i % 3],))
+            frames.append(f)
+        kw = dict(save_all=True, append_images=frames[1:], duration=spec["duration"], loop=0)
+        if spec["fmt"] == "WEBP":
+            kw["lossless"] = True
+        else:
+            kw["disposal"] = 2
+        frames[0].save(path, spec["fmt"], **kw)
+    return path
 
 
 def _set_size(image, s):
     S = I.Size
-    if s[0] == "fixed":
+    if s[0] == "match":
+        ow, oh = image.original_size
+        image.set_size(ow, max(1, oh // 2))
+    elif s[0] == "fixed":
         image.set_size(s[1], s[2])
     elif s[0] == "width":
         image.set_size(width=s[1])
@@ -744,10 +783,18 @@ def do_op(w, o, inj):
             if o["alpha"] != "default":
                 kw["alpha"] = o["alpha"]
 
+            budget = [o["repeat"] * w.n + 3]
+
+            def nosleep(_):
+                budget[0] -= 1
+                if budget[0] < 0:
+                    raise _Runaway(f"draw(repeat={o['repeat']}) of a {w.n}-frame image displayed more than "
+                                   f"{o['repeat'] * w.n + 3} frames")
+
             def fn():
                 old, sl = sys.stdout, C.time.sleep
                 sys.stdout = io.StringIO()
-                C.time.sleep = lambda s: None
+                C.time.sleep = nosleep
                 try:
                     image.draw(**kw)
                     return sys.stdout.getvalue()
@@ -939,6 +986,8 @@ def _do_nexts(w, e, k, inj, armed, fired):
             m.closed = True
             w.tell = None
             notes.append("fault")
+            # "a next() that failed closes the iterator": its file must be closed now, not at the next call
+            w.check_resources("right after a failed next()", collect=True)
             try:
                 next(it)
             except StopIteration:
@@ -1028,7 +1077,9 @@ def run_history(case, rec, fault=None, count_site=None):
             if construct(w):
                 w.check_size_tell("after construction")
                 w.check_resources("after construction")
-                w.take_rw()
+                rws = w.take_rw()
+                if rws:
+                    w.fail(f"construction left an image file to the garbage collector: {rws[:2]}", "gc_closed", op="construct")
                 for i, o in enumerate(case["ops"]):
                     if fault and i == fault[1]:
                         inj.fire_at = inj.calls + fault[2]
